@@ -48,6 +48,39 @@ def step (op implObs : String) : String × List String × List String :=
          | some r => [s!"C06 newpieces-{r} kind={if WF o then "wellformed-input" else classify o}"]
          | none => ["C06 newpieces-missing"])
     (modelObs, viol, tags ++ (if kvStr toks "mode" = "meta" then ["branch:via-metainfo-New"] else []))
+  | some "limit" =>
+    let viaMeta := kvStr toks "via" = "meta"
+    let maxPieces := kvNat toks "maxpieces"
+    let hashHex := strBytes (kvStr toks "hash")
+    let truncated := viaMeta && kvNat toks "size" > kvNat toks "maxsize"
+    let (modelObs, tags) : String × List String :=
+      if !viaMeta && (versionFlags (kvInt toks "ver")).isNone then ("reject:version", ["branch:limit-version"]) else
+      if truncated then
+        -- the pre-scan may meet an over-deep value before the cut: either rejection is admissible
+        (if dictDepth viaMeta (kvStr toks "d") > maxBencodeDepth ∧ implObs = "reject:too-deep" then implObs
+         else "reject:decode", ["branch:limit-truncated"]) else
+      match decodeDict viaMeta (kvStr toks "d") with
+      | .unsupported w => (s!"unsupported:{w}", ["branch:unsupported"])
+      | .tooDeep => ("reject:too-deep", ["branch:too-deep"])
+      | .decodeError => ("reject:decode", ["branch:decode"])
+      | .ok ib =>
+        let flags := if viaMeta then some (true, true) else versionFlags (kvInt toks "ver")
+        match flags with
+        | none => ("reject:version", ["branch:limit-version"])
+        | some (u, pd) =>
+          match newInfo { utf8 := u, pad := pd, hashHex := hashHex } ib with
+          | .error e => (s!"reject:{e.toString}", [s!"branch:{e.toString}"])
+          | .ok o =>
+            match piecesGuard maxPieces o with
+            | .error _ => ("reject:too-many-pieces", ["branch:limit-too-many-pieces", "nontrivial"])
+            | .ok o => (s!"accept np={o.numPieces} len={o.length}", ["branch:limit-accept", "nontrivial"])
+    let viol :=
+      if implObs.startsWith "accept " then
+        let np := kvNat (words implObs) "np"
+        (if np > maxPieces then [s!"C06 limit-exceeded np={np} max={maxPieces}"] else []) ++
+        (if truncated then ["C06 limit-size-exceeded-accepted"] else [])
+      else []
+    (modelObs, viol, tags)
   | some "raw" =>
     ("reject alloc=small",
       (if implObs = "reject alloc=small" then []
